@@ -39,7 +39,12 @@ def case_s2(ctx, rng, wd, sparse):
     frames = int(rng.choice([1, 2]))
     cellkind = str(rng.choice(["ortho", "ortho", "tri"]))
     N = int(rng.integers(3, 28))
-    cell = gc.make_cell(rng, d, cellkind, lmin=(12 if sparse else 3.5), lmax=(25 if sparse else 8))
+    bigsys = N >= 26 and not sparse
+    if bigsys:
+        N = int(rng.choice([130, 260]))           # beyond the usual size
+        ctx.count("s2_systems_beyond_usual_size")
+    cell = gc.make_cell(rng, d, cellkind, lmin=(12 if sparse else 3.5) * ((N / 20.0) ** (1.0 / d) if bigsys else 1.0),
+                        lmax=(25 if sparse else 8) * ((N / 20.0) ** (1.0 / d) if bigsys else 1.0))
     types = gc.make_types(rng, N, K)
     Kr = len(np.unique(types))
     # sheared trajectories (equal edge lengths, an own tilt per frame): every frame has its own cell matrix
@@ -53,7 +58,7 @@ def case_s2(ctx, rng, wd, sparse):
     sig = 0.5 * (sig + sig.T)
     ra = min(geom.agreement_radius(c["H"], ppp) for c in cells)
     Lmin = float(np.diag(cell["H"]).min())
-    rmax_target = float(rng.uniform(0.25, 0.6) * Lmin)
+    rmax_target = float(rng.uniform(0.25, 0.6) * Lmin) if not bigsys else float(rng.uniform(1.0, 2.5))
     if np.isfinite(ra) and not cellkind.startswith("ortho"):
         rmax_target = min(rmax_target, 0.9 * ra)
     ndelta = int(rng.integers(15, 80))
@@ -67,6 +72,16 @@ def case_s2(ctx, rng, wd, sparse):
     info = lambda: {"d": d, "N": N, "K": Kr, "cell": cellkind, "H": [c["H"] for c in cells], "ppp": ppp, "sigmas": sig, "rdelta": rdelta, "ndelta": ndelta,  # noqa: E731
                     "sparse": sparse, "types": types, "positions": [s.positions for s in snaps.snapshots] if N <= 12 else "omitted"}
     key = "S2.particle_s2" + ("/sparse" if sparse else "")
+    if rng.random() < 0.3:
+        # history: the same trajectory analysed immediately before with ONE argument changed (other widths, other bin width, other mask)
+        u = rng.random()
+        if u < 0.35:
+            ctx.call(key + "/prior_call", lambda: S2(snaps, sig * 1.3, ppp, rdelta, ndelta).particle_s2(savegr=False, outputfile=""), data=info)
+        elif u < 0.7:
+            ctx.call(key + "/prior_call", lambda: S2(snaps, sig.copy(), ppp, rdelta * 0.8, ndelta).particle_s2(savegr=False, outputfile=""), data=info)
+        else:
+            ctx.call(key + "/prior_call", lambda: S2(snaps, sig.copy(), 1 - ppp, rdelta, ndelta).particle_s2(savegr=False, outputfile=""), data=info)
+        ctx.count("s2_prior_call_one_argument_changed")
     ok, res = ctx.call(key, lambda: S2(snaps, sig.copy(), ppp, rdelta, ndelta).particle_s2(savegr=savegr, outputfile=out), data=info)
     ctx.case(f"s2/{d}D/{cellkind}/{'sparse' if sparse else 'dense'}", snaps.snapshots[0].positions, types, sig, rdelta, ndelta, ppp, nontrivial=N >= 3,
              sample={"d": d, "N": N, "K": Kr, "cell": cellkind, "ppp": ppp, "rdelta": rdelta, "ndelta": ndelta, "sparse": sparse})
